@@ -10,8 +10,10 @@ A *history* is a JSON-serialisable dict::
 
 Public API
 ----------
-``gen_history(rng, tier, ndims=None, mesh_kinds=None, ops=None, maxops=None) -> dict``  (8 % of the unrestricted draws are
-    ``gen_periodic_slice_history`` scenarios: periodic mesh, slice along the periodic axis, refinement at the cut; key ``scenario``)
+``gen_history(rng, tier, ndims=None, mesh_kinds=None, ops=None, maxops=None) -> dict``  (of the unrestricted draws 8 % are
+    ``gen_periodic_slice_history`` scenarios: periodic mesh, slice along the periodic axis, refinement at the cut; 12 % are
+    ``gen_mismatch_trim_history`` scenarios: small mesh trimmed by a per-element (discontinuous) or partially vanishing level set so that
+    neighbours keep different parts of their shared face; key ``scenario``)
     Draw a random history from a ``numpy.random.Generator``.  ``tier`` is ``'quick'`` or
     ``'thorough'`` (thorough: larger meshes, longer histories, maxrefine up to 3 in 2-D).
     ``ndims`` fixes the mesh dimension (1, 2 or 3; default: random 1-2, callers sample 3-D
@@ -42,7 +44,7 @@ Public API
     The first two return values are the topology and geometry of the last step.
 
 ``make_mesh(spec) -> (topology, geom0)``, ``make_geometry(spec, geom0) -> geom``,
-``make_levelset(spec, geom0) -> function.Array``, ``select(n, sel) -> sorted int array``,
+``make_levelset(spec, geom0, root=None) -> function.Array`` (``root``: base-mesh topology, needed by 'piecewise' level sets), ``select(n, sel) -> sorted int array``,
 ``is_refusal(exc) -> bool``, ``signature(exc) -> str``, ``quiet()`` (context manager silencing
 treelog), ``history_hash(history)``, ``history_kinds(history)``, ``cut_elements(topo)``,
 ``gauss_degree(history)`` (degree that integrates J, n J and x.n J exactly for this geometry).
@@ -312,7 +314,8 @@ def mesh_size(spec):
         return int(numpy.prod([v if isinstance(v, int) else len(v) - 1 for v in spec['shape']]))
     if k == 'unitsquare':
         n = spec['n']
-        return {'square': n * n, 'triangle': 2 * n * n, 'mixed': 2 * n * n, 'multipatch': 5 * n * n}[spec['etype']]
+        nsq = sum(1 for i in range(n) for j in range(n) if i % 2 == j % 3)   # squares of the 'mixed' mesh replace two triangles each
+        return {'square': n * n, 'triangle': 2 * n * n, 'mixed': 2 * n * n - nsq, 'multipatch': 5 * n * n}[spec['etype']]
     if k == 'simplex':
         d = spec['ndims']
         return spec['n']**d * {1: 1, 2: 2, 3: 6}[d]
@@ -449,7 +452,7 @@ def gen_levelset(rng, ticks):
     return dict(kind='quadric', H=_fl(H), center=_fl(c), level=_f(rng.uniform(-1, 1) * size.max()**2 * .2), tag='quadric')
 
 
-def make_levelset(spec, geom0):
+def make_levelset(spec, geom0, root=None):
     d = None
     kind = spec['kind']
     if kind == 'plane':
@@ -461,7 +464,7 @@ def make_levelset(spec, geom0):
         d = len(c)
         return float(spec['sign']) * (float(spec['radius'])**2 - sum((geom0[i] - c[i])**2 for i in range(d)))
     if kind == 'product':
-        p1, p2 = (make_levelset(p, geom0) for p in spec['planes'])
+        p1, p2 = (make_levelset(p, geom0, root) for p in spec['planes'])
         return p1 * p2
     if kind == 'quadric':
         H = numpy.array(spec['H'], dtype=float)
@@ -469,6 +472,21 @@ def make_levelset(spec, geom0):
         d = len(c)
         y = [geom0[i] - c[i] for i in range(d)]
         return sum(H[i, j] * y[i] * y[j] for i in range(d) for j in range(d)) - float(spec['level'])
+    if kind == 'piecewise':
+        # n.g - offsets[element of the root mesh]: DISCONTINUOUS across element faces, so two neighbours cut their shared face at different places
+        from nutils import function
+        if root is None:
+            raise ValueError('piecewise level set needs the root topology')
+        n = numpy.array(spec['normal'], dtype=float)
+        offsets = numpy.array(spec['offsets'], dtype=float)
+        if len(offsets) != len(root):
+            raise ValueError('piecewise level set does not fit the root mesh')
+        return sum(n[i] * geom0[i] for i in range(len(n))) - function.get(offsets, 0, root.f_index)
+    if kind == 'partial':
+        # sign * [(g_a - t) + kappa (g_b - s0)(g_b - s1)]: continuous, but VANISHES at two (sub)vertices of the grid line g_a = t: with
+        # maxrefine >= 1 one element is cut along (part of) an element edge while its neighbour keeps that face whole (tests/test_finitecell partialtrim)
+        a, b = int(spec['a']), int(spec['b'])
+        return float(spec['sign']) * ((geom0[a] - float(spec['t'])) + float(spec['kappa']) * (geom0[b] - float(spec['s0'])) * (geom0[b] - float(spec['s1'])))
     raise ValueError(kind)
 
 
@@ -479,8 +497,12 @@ def gen_history(rng, tier='quick', ndims=None, mesh_kinds=None, ops=None, maxops
     big = tier == 'thorough'
     if ndims is None:
         ndims = int(rng.choice([1, 2], p=[.3, .7]))
-    if not mesh_kinds and not ops and rng.random() < .08:
-        return gen_periodic_slice_history(rng, tier, ndims)
+    if not mesh_kinds and not ops:
+        r = rng.random()
+        if r < .08:
+            return gen_periodic_slice_history(rng, tier, ndims)
+        if r < .20:
+            return gen_mismatch_trim_history(rng, tier, ndims)
     mesh_spec = gen_mesh(rng, ndims, tier, mesh_kinds)
     geom_spec = gen_geometry(rng, ndims, tier)
     if geom_spec['kind'] == 'quad' and (mesh_spec['kind'] == 'multipatch' or mesh_spec.get('etype') == 'multipatch' or mesh_spec.get('periodic')):
@@ -652,6 +674,90 @@ def gen_periodic_slice_history(rng, tier='quick', ndims=2):
     return dict(version=VERSION, ndims=ndims, mesh=mesh, geom=geom, ops=ops, scenario='periodic-slice-' + how)
 
 
+def gen_mismatch_trim_history(rng, tier='quick', ndims=2):
+    """Scenario histories: a SMALL mesh (mostly two elements, so that there is exactly one interior face) trimmed such that the two
+    neighbours keep DIFFERENT parts of their shared face, in both element orders:
+    'piecewise': plane level set with a per-element offset (discontinuous across faces), maxrefine 0-2;
+    'partial'  : continuous level set vanishing at two (sub)vertices of a grid line (maxrefine 1-2): one element is cut along the element
+                 edge, the neighbour keeps the face whole;
+    optionally followed by refine / refined_by / subset / minus / take / boundary / interfaces.  (TransformChainsTopology.interfaces must
+    intersect the two edge references; whether it does is order dependent and hidden as soon as any other face 'touches'.)"""
+    if ndims == 1:
+        ndims = 2
+    how = str(rng.choice(['piecewise', 'partial'], p=[.7, .3]))
+    r = rng.random()
+    if ndims == 3:
+        axis = int(rng.integers(3))
+        shape = [1, 1, 1]
+        shape[axis] = 2
+        mesh = dict(kind='rect', ndims=3, shape=shape, periodic=[]) if r < .8 else dict(kind='simplex', ndims=3, n=1, seed=int(rng.integers(2**31)), amp=0.)
+    elif how == 'partial' or r < .45:
+        shape = [[2, 1], [1, 2], [2, 2], [3, 1], [1, 3], [3, 2]][int(rng.choice(6, p=[.3, .3, .15, .1, .1, .05]))]
+        mesh = dict(kind='rect', ndims=2, shape=shape, periodic=[])
+    elif r < .7:
+        mesh = dict(kind='unitsquare', ndims=2, etype='triangle', n=1)
+    elif r < .85:
+        mesh = dict(kind='unitsquare', ndims=2, etype=str(rng.choice(['mixed', 'square'])), n=2)
+    else:
+        mesh = dict(kind='simplex', ndims=2, n=int(rng.integers(1, 3)), seed=int(rng.integers(2**31)), amp=_f(rng.choice([0., .1])))
+    if how == 'partial' and mesh['kind'] != 'rect':
+        how = 'piecewise'
+    ticks = mesh_ticks(mesh)
+    lo = numpy.array([t[0] for t in ticks])
+    hi = numpy.array([t[-1] for t in ticks])
+    geom = gen_geometry(rng, ndims, tier)
+    if geom['kind'] == 'quad':
+        geom = dict(kind='affine', A=geom['A'], b=geom['b'])
+    nel = mesh_size(mesh)
+    if how == 'piecewise':
+        if mesh['kind'] == 'rect' and rng.random() < .6:
+            # plane (nearly) transverse to a shared face: normal along an axis in which the mesh has one element
+            ones = [k for k, v in enumerate(mesh['shape']) if v == 1] or list(range(ndims))
+            n = numpy.zeros(ndims)
+            n[int(rng.choice(ones))] = float(rng.choice([-1., 1.]))
+            n += rng.normal(size=ndims) * float(rng.choice([0., .05, .3]))
+        else:
+            n = rng.normal(size=ndims)
+        n /= numpy.linalg.norm(n)
+        centre = .5 * (lo + hi)
+        h = float((hi - lo).min()) / max(1, max(len(t) - 1 for t in ticks))
+        base = float(n @ centre)
+        offsets = (base + rng.uniform(-.35, .35, nel) * h).tolist()
+        if rng.random() < .3:   # only one element differs
+            k = int(rng.integers(nel))
+            offsets = [offsets[k] if e == k else offsets[(k + 1) % nel] for e in range(nel)]
+        ls = dict(kind='piecewise', normal=_fl(n), offsets=[_f(o) for o in offsets], tag='piecewise')
+        mr = int(rng.integers(0, 3))
+    else:
+        a = int(rng.integers(ndims))
+        b = int(rng.choice([k for k in range(ndims) if k != a]))
+        inner = ticks[a][1:-1] or ticks[a]
+        t = float(inner[int(rng.integers(len(inner)))])
+        tb = ticks[b]
+        k = int(rng.integers(len(tb) - 1))
+        cand = [tb[k], .5 * (tb[k] + tb[k + 1]), tb[k + 1]]
+        i0 = int(rng.integers(0, 2))
+        s0, s1 = cand[i0], cand[i0 + 1]
+        ls = dict(kind='partial', a=a, b=b, t=_f(t), s0=_f(s0), s1=_f(s1), kappa=_f(rng.choice([1., -1., .5, 2.])), sign=_f(rng.choice([-1., 1.])), tag='partial')
+        mr = int(rng.integers(1, 3))
+    if ndims == 3:
+        mr = min(mr, 1)
+    ops = [dict(op='trim', levelset=ls, maxrefine=mr, ndivisions=int(rng.choice([8, 8, 16])), name='trim1', side=str(rng.choice(['+', '-'])))]
+    seed = lambda: int(rng.integers(2**31))
+    follow = str(rng.choice(['none', 'refine', 'refined_by', 'subset', 'minus', 'take', 'boundary', 'interfaces'], p=[.35, .12, .12, .1, .1, .07, .08, .06]))
+    if follow == 'refine':
+        ops.append(dict(op='refine'))
+    elif follow == 'refined_by':
+        ops.append(dict(op='refined_by', frac=.5, seed=seed(), prefer='cut'))
+    elif follow in ('subset', 'minus'):
+        ops.append(dict(op=follow, frac=.5, seed=seed(), name='sub1'))
+    elif follow == 'take':
+        ops.append(dict(op='take', frac=.75, seed=seed(), how='getitem'))
+    elif follow in ('boundary', 'interfaces'):
+        ops.append(dict(op=follow, group=None) if follow == 'boundary' else dict(op='interfaces'))
+    return dict(version=VERSION, ndims=ndims, mesh=mesh, geom=geom, ops=ops, scenario='mismatch-trim-' + how)
+
+
 def _mesh_groups(spec):
     k = spec['kind']
     if k == 'simplex':
@@ -699,7 +805,7 @@ def _structured_shape(topo):
     return None
 
 
-def apply_op(op, topo, geom, geom0, geomspec, maxelems):
+def apply_op(op, topo, geom, geom0, geomspec, maxelems, root=None):
     """Apply one operation; returns (newtopo, newgeom, newgeom0, info).  Raises what nutils raises."""
     from nutils import mesh, function
     kind = op['op']
@@ -788,7 +894,7 @@ def apply_op(op, topo, geom, geom0, geomspec, maxelems):
         y = numpy.stack([y])
         return topo * other, numpy.concatenate([geom, y]), numpy.concatenate([geom0, y]), info
     if kind == 'trim':
-        ls = make_levelset(op['levelset'], geom0)
+        ls = make_levelset(op['levelset'], geom0, root)
         if n * (2**topo.ndims)**min(op['maxrefine'], 2) > 40 * maxelems:
             raise Skip('too many elements')
         pos = topo.trim(ls, maxrefine=int(op['maxrefine']), ndivisions=int(op.get('ndivisions', 8)), name=op.get('name', 'trimmed'))
@@ -821,7 +927,7 @@ def build(history, maxelems=MAXELEMS):
         for i, op in enumerate(history['ops'], start=1):
             step = Step(i, op, topo, geom, geom0)
             try:
-                new, g, g0, info = apply_op(op, topo, geom, geom0, history['geom'], maxelems)
+                new, g, g0, info = apply_op(op, topo, geom, geom0, history['geom'], maxelems, root=first.topo)
                 n = len(new)
                 step.info = info
                 if n == 0 and 'pos' in info:
